@@ -583,7 +583,7 @@ impl Allocator {
         }
         if kind == ObjectKind::String {
           stats.strings += 1;
-          live_strings.insert(verif_handle_addr(obj));
+          live_strings.insert(verif_pointer_addr(obj));
         }
       }
     }
@@ -598,7 +598,7 @@ impl Allocator {
     stats.intern_len = self.intern_cache.len() as u64;
     stats.temp_roots = self.temp_roots.len() as u64;
     for (key, value) in self.intern_cache.iter() {
-      let addr = usize::from_str_radix(format!("{value:p}").trim_start_matches("0x"), 16).unwrap_or(0);
+      let addr = verif_pointer_addr(value);
       if !live_strings.contains(&addr) {
         stats.intern_dangling += 1;
         continue;
@@ -612,9 +612,19 @@ impl Allocator {
   }
 }
 
+/// The address a value prints through its own `fmt::Pointer` impl (formatting a
+/// reference with `{:p}` would print the address of the reference instead)
 #[cfg(feature = "verif")]
-fn verif_handle_addr(obj: &ObjectHandle) -> usize {
-  usize::from_str_radix(format!("{obj:p}").trim_start_matches("0x"), 16).unwrap_or(0)
+fn verif_pointer_addr<T: fmt::Pointer>(item: &T) -> usize {
+  struct Wrap<'a, T>(&'a T);
+
+  impl<T: fmt::Pointer> fmt::Display for Wrap<'_, T> {
+    fn fmt(&self, f: &mut fmt::Formatter<'_>) -> fmt::Result {
+      fmt::Pointer::fmt(self.0, f)
+    }
+  }
+
+  usize::from_str_radix(Wrap(item).to_string().trim_start_matches("0x"), 16).unwrap_or(0)
 }
 
 impl Default for Allocator {
